@@ -87,6 +87,35 @@ theorem reqsOff_nil (fix : Fix) (l : List Off) : ∀ m, m.online = false → req
     | editAttr id n v => simp only; rw [editAttr_offline m h]
     | editDev n v => simp only; rw [editDev_offline m h]
 
+/-! ### The sync mode does not change during the outage -/
+
+theorem stepEvent_mode (fix : Fix) (m : Master) (e : Ev) : (stepEvent fix m e).mode = m.mode := by
+  cases e with
+  | valueChange i v =>
+    rw [stepEvent_valueChange]
+    split
+    · rfl
+    · split <;> rfl
+  | portUpdate msg => rw [stepEvent_portUpdate]; split <;> rfl
+  | portAdd msg => rw [stepEvent_portAdd]; split <;> rfl
+  | portRemove i => rw [stepEvent_portRemove]; split <;> rfl
+  | deviceUpdate a => rw [stepEvent_deviceUpdate]; split <;> rfl
+
+theorem stepOff_mode (fix : Fix) (m : Master) (x : Off) (hoff : m.online = false) : (stepOff fix m x).mode = m.mode := by
+  cases x with
+  | ev e => exact stepEvent_mode fix m e
+  | tick => rfl
+  | editValue id v ok => simp only [stepOff]; rw [editValue_offline m hoff]
+  | editAttr id n v => simp only [stepOff]; rw [editAttr_offline m hoff]
+  | editDev n v => simp only [stepOff]; rw [editDev_offline m hoff]
+
+theorem runOff_mode (fix : Fix) (l : List Off) : ∀ m, m.online = false → (runOff fix m l).mode = m.mode := by
+  induction l with
+  | nil => intro m _; rfl
+  | cons x r ih =>
+    intro m h
+    exact (ih _ (stepOff_online fix m x h)).trans (stepOff_mode fix m x h)
+
 /-! ### One step, seen from one port -/
 
 def PortRel (id : Nat) : Off → MPort → MPort → Prop
@@ -407,6 +436,150 @@ theorem invA_start (p : MPort) (hs : ∀ n ∈ p.prov, (p.attrs.get? n).isSome) 
     · simp only [hn, if_false] at hl; cases hl
   · intro n hn
     unfold pendLookup
+    simp only [hn, if_true]
+    exact hs n hn
+
+/-! ### Device attributes: the reconnect pushes exactly the last user value per edited name
+
+`_handle_device_update` (as written) drops a WHOLE update that mentions a pending name and otherwise REPLACES the cache;
+with every device update reporting the whole attribute set (`hrep`), an update is therefore accepted only while
+nothing is pending, and dropped as soon as one name is. -/
+
+def updDevNames (names : List Nat) : Off → List Nat
+  | .editDev n _ => addName names n
+  | _ => names
+
+def updDevA (n : Nat) (a : Option Int) : Off → Option Int
+  | .editDev k v => if k = n then some v else a
+  | _ => a
+
+/-- Device attribute names pending after the history (first-edit order), `names` being pending before. -/
+def devNamesAfter (names : List Nat) (l : List Off) : List Nat := l.foldl updDevNames names
+
+/-- The last value the user gave device attribute `n` (`a` if the history has no such edit). -/
+def devAttrAfter (n : Nat) (a : Option Int) (l : List Off) : Option Int := l.foldl (updDevA n) a
+
+/-- The master holds the tracked pending device names, each with its tracked value. -/
+def InvD (m : Master) (names : List Nat) (last : Nat → Option Int) : Prop :=
+  m.devProv = names ∧ (∀ n v, last n = some v → n ∈ m.devProv ∧ m.dev.get? n = some v) ∧
+  (∀ n ∈ names, (last n).isSome)
+
+theorem invD_of_devKept {m m1 : Master} {names : List Nat} {last : Nat → Option Int} (k : DevKept m m1)
+    (h : InvD m names last) : InvD m1 names last := by
+  obtain ⟨k1, k2⟩ := k
+  obtain ⟨h1, h2, h3⟩ := h
+  refine ⟨k1.trans h1, ?_, h3⟩
+  intro n v hl
+  obtain ⟨hn, hv⟩ := h2 n v hl
+  exact ⟨by rw [k1]; exact hn, k2 n hn v hv⟩
+
+theorem invD_congr {m m1 : Master} {names : List Nat} {last : Nat → Option Int} (hd : m1.dev = m.dev)
+    (hp : m1.devProv = m.devProv) (h : InvD m names last) : InvD m1 names last := by
+  unfold InvD at *
+  rw [hd, hp]; exact h
+
+theorem invD_devEdit {m : Master} {names : List Nat} {last : Nat → Option Int} (k : Nat) (w : Int)
+    (h : InvD m names last) :
+    InvD { m with devProv := addName m.devProv k, dev := m.dev.set k w } (addName names k)
+      (fun n => if k = n then some w else last n) := by
+  obtain ⟨h1, h2, h3⟩ := h
+  refine ⟨by simp only [h1], ?_, ?_⟩
+  · intro n v hl
+    by_cases hk : k = n
+    · subst hk
+      simp only [if_true, Option.some.injEq] at hl
+      subst hl
+      exact ⟨mem_addName _ _, Attrs.get?_set_same _ _ _⟩
+    · simp only [hk, if_false] at hl
+      obtain ⟨hn, hv⟩ := h2 n v hl
+      refine ⟨(mem_addName_iff _ _ _).mpr (Or.inl hn), ?_⟩
+      simp only
+      rw [Attrs.get?_set_other _ _ _ _ (fun e => hk e.symm)]
+      exact hv
+  · intro n hn
+    by_cases hk : k = n
+    · simp [hk]
+    · simp only [hk, if_false]
+      rcases (mem_addName_iff _ _ _).mp hn with h | h
+      · exact h3 n h
+      · exact absurd h.symm hk
+
+theorem stepOff_dev (fix : Fix) (m : Master) (x : Off) (names : List Nat) (last : Nat → Option Int)
+    (hoff : m.online = false) (h : InvD m names last)
+    (hrep : ∀ a, x = .ev (.deviceUpdate a) → ∀ n ∈ names, a.has n = true) :
+    InvD (stepOff fix m x) (updDevNames names x) (fun n => updDevA n (last n) x) := by
+  cases x with
+  | ev e =>
+    apply invD_of_devKept (stepEvent_dev_kept fix m e ?_) h
+    intro a ha n hn
+    rw [h.1] at hn
+    exact hrep a (by rw [ha]) n hn
+  | tick => exact invD_congr (drain_dev fix m).1 (drain_dev fix m).2 h
+  | editValue i v ok =>
+    simp only [stepOff]; rw [editValue_offline m hoff]
+    exact invD_congr rfl rfl h
+  | editAttr i n v =>
+    simp only [stepOff]; rw [editAttr_offline m hoff]
+    exact invD_congr rfl rfl h
+  | editDev k w =>
+    simp only [stepOff]; rw [editDev_offline m hoff]
+    exact invD_devEdit k w h
+
+theorem mem_updDevNames {names : List Nat} {n : Nat} (x : Off) (h : n ∈ names) : n ∈ updDevNames names x := by
+  cases x with
+  | editDev k w => exact (mem_addName_iff _ _ _).mpr (Or.inl h)
+  | ev e => exact h
+  | tick => exact h
+  | editValue i v ok => exact h
+  | editAttr i k v => exact h
+
+theorem mem_devNamesAfter (l : List Off) : ∀ {names : List Nat} {n : Nat}, n ∈ names → n ∈ devNamesAfter names l := by
+  induction l with
+  | nil => intro names n h; exact h
+  | cons x r ih => intro names n h; exact ih (mem_updDevNames x h)
+
+/-- Every device update of the history reports every name pending at the end (a real device always reports its whole
+attribute set). -/
+def DevReportsOff (names : List Nat) (l : List Off) : Prop :=
+  ∀ a, Off.ev (.deviceUpdate a) ∈ l → ∀ n ∈ devNamesAfter names l, a.has n = true
+
+theorem runOff_dev (fix : Fix) (l : List Off) :
+    ∀ (m : Master) (names : List Nat) (last : Nat → Option Int), m.online = false → InvD m names last →
+      DevReportsOff names l →
+      InvD (runOff fix m l) (devNamesAfter names l) (fun n => devAttrAfter n (last n) l) := by
+  induction l with
+  | nil => intro m names last _ h _; exact h
+  | cons x r ih =>
+    intro m names last hoff h hrep
+    have h1 := stepOff_dev fix m x names last hoff h (by
+      intro a ha n hn
+      exact hrep a (ha ▸ List.mem_cons_self ..) n (mem_devNamesAfter r (mem_updDevNames x hn)))
+    exact ih _ _ _ (stepOff_online fix m x hoff) h1 (fun a ha n hn => hrep a (List.mem_cons_of_mem _ ha) n hn)
+
+/-- Under `InvD` the device attributes the reconnect pushes are exactly the tracked ones. -/
+theorem pendDev_of_invD {m : Master} {names : List Nat} {last : Nat → Option Int} (h : InvD m names last) :
+    m.pendDev = names.filterMap (fun n => (last n).map (fun v => (n, v))) := by
+  obtain ⟨h1, h2, h3⟩ := h
+  unfold Master.pendDev
+  rw [h1]
+  apply filterMap_congr_mem
+  intro n hn
+  cases hl : last n with
+  | none => have := h3 n hn; rw [hl] at this; cases this
+  | some v => rw [(h2 n v hl).2]
+
+/-- The tracker's initial state for the device: its pending names with the values they hold. -/
+def devLookup (m : Master) (n : Nat) : Option Int := if n ∈ m.devProv then m.dev.get? n else none
+
+theorem invD_start (m : Master) (hs : ∀ n ∈ m.devProv, (m.dev.get? n).isSome) : InvD m m.devProv (devLookup m) := by
+  refine ⟨rfl, ?_, ?_⟩
+  · intro n v hl
+    unfold devLookup at hl
+    by_cases hn : n ∈ m.devProv
+    · simp only [hn, if_true] at hl; exact ⟨hn, hl⟩
+    · simp only [hn, if_false] at hl; cases hl
+  · intro n hn
+    unfold devLookup
     simp only [hn, if_true]
     exact hs n hn
 
